@@ -175,11 +175,42 @@ def to_dense(ent, shape):
 #: (grid, dimension, num_subproblems) of the larger oracle-only cases; the first one (24 cells,
 #: one face discretized by three subproblems) and the second (perturbed hexahedra with
 #: non-planar faces) are also part of the quick tier
-BIG_SPECS = [({"kind": "tet", "n": [2, 2, 1]}, 3, 4),
-             ({"kind": "cart", "n": [2, 2, 2]}, 3, 0),
-             ({"kind": "tet", "n": [3, 3, 2]}, 3, 4),
-             ({"kind": "tri", "n": [4, 4]}, 2, 4),
-             ({"kind": "cart", "n": [5, 5]}, 2, 3)]
+BIG_SPECS = [({"kind": "tet", "n": [2, 2, 1]}, 3, 4, {}),
+             ({"kind": "cart", "n": [2, 2, 2]}, 3, 0, {"bc": "mixed"}),
+             ({"kind": "cart", "n": [7, 7]}, 2, 0, {"update": "flag", "bc": "mixed"}),
+             ({"kind": "cart", "n": [7, 7]}, 2, 0, {"update": "method", "bc": "mixed"}),
+             ({"kind": "tet", "n": [3, 3, 2]}, 3, 4, {}),
+             ({"kind": "tri", "n": [4, 4]}, 2, 4, {}),
+             ({"kind": "cart", "n": [5, 5]}, 2, 3, {}),
+             ({"kind": "cart", "n": [6, 6, 6]}, 3, 0, {"update": "flag", "bc": "mixed", "c11_only": True}),
+             ({"kind": "tri", "n": [6, 6]}, 2, 0, {"update": "method", "bc": "mixed"})]
+#: how many of them are part of the quick tier
+BIG_QUICK = 4
+
+
+def update_cells(rng, g, how):
+    """Cells to be re-discretized in an update-mode history: a small cluster in the middle
+    of the grid (so that the stencil does not reach the whole grid) or random cells."""
+    if how == "middle":
+        c0 = int(np.argmin(np.linalg.norm(g.cell_centers - g.cell_centers.mean(axis=1)[:, None], axis=0)))
+        return sorted({c0, (c0 + 1) % g.num_cells})
+    k = rng.randint(1, max(1, min(3, g.num_cells)))
+    return sorted(rng.sample(range(g.num_cells), k))
+
+
+def run_update(discr, g, data, kw, upd):
+    """Second step of an update-mode history: partial re-discretization of upd['cells'],
+    either through the 'update_discretization' flag of discretize() (rows of the affected
+    faces are overwritten in the stored matrices) or through the update_discretization()
+    method (old matrices with zeroed rows + partial discretization)."""
+    cells = np.array(upd["cells"], dtype=int)
+    if upd["route"] == "flag":
+        data[pp.PARAMETERS][kw]["specified_cells"] = cells
+        data[pp.PARAMETERS][kw]["update_discretization"] = True
+        discr.discretize(g, data)
+    else:
+        data["update_discretization"] = {"modified_cells": cells}
+        discr.update_discretization(g, data)
 
 
 class LocalCapture:
@@ -377,11 +408,12 @@ class C11(Prop):
         # a few larger grids, checked by the oracle only (too large for the Coq certificate):
         # partitions with faces shared by three and more subproblems, larger 2-D partitions,
         # perturbed hexahedra (non-planar faces)
-        big = BIG_SPECS[:2] if tier == "quick" else BIG_SPECS
-        nbig = min(len(big), max(0, n - 1)) if n >= 4 else 0
+        big = BIG_SPECS[:BIG_QUICK] if tier == "quick" else BIG_SPECS
+        nbig = min(len(big), max(0, n - 1)) if n >= 6 else 0
         for it in range(n):
+            extra = {}
             if it >= n - nbig:
-                spec, dim, nsub_big = big[it - (n - nbig)]
+                spec, dim, nsub_big, extra = big[it - (n - nbig)]
                 spec = dict(spec)
             else:
                 spec, dim = grid_spec(rng, tier)
@@ -401,6 +433,12 @@ class C11(Prop):
             else:
                 pd = rng.choice([0.25, 0.5, 0.75])
                 dirf = [f for f in bfaces if rng.random() < pd]
+            if extra.get("bc") == "mixed":
+                # at least a third of the boundary faces of each kind (non-zero Neumann data)
+                sh = list(bfaces)
+                rng.shuffle(sh)
+                cut = rng.randint(len(sh) // 3, 2 * len(sh) // 3)
+                dirf = sorted(sh[:max(1, cut)])
             K = np.array(spd_tensor(rng, dim), dtype=float)
             embedded = rng.random() < 0.4
             if embedded:
@@ -423,9 +461,19 @@ class C11(Prop):
             nsub = rng.choice([None, None, 2, 3]) if g.num_cells >= 2 else None
             case = {"grid": spec, "dim": dim, "K": [[float(x) for x in row] for row in K],
                     "dir": dirf, "fields": fields, "local": rng.random() < 0.34, "nsub": nsub,
-                    "inv": rng.random() < 0.3}
+                    "inv": rng.random() < 0.3,
+                    # documented optional parameters: continuity point and local inverter
+                    "eta": rng.choice([None, None, 0.0, 1.0 / 3, 0.25, 0.5]),
+                    "inverter": rng.choice([None, None, "python", "numba"]),
+                    "update": None}
+            if rng.random() < 0.25:
+                # two-step history: full discretization, then partial re-discretization
+                case["update"] = {"route": rng.choice(["flag", "method"]),
+                                  "cells": update_cells(rng, g, "random")}
             if nsub_big is not None:
-                case.update(nsub=nsub_big or None, local=False, inv=False, oracle_only=True)
+                case.update(nsub=nsub_big or None, local=False, inv=False, oracle_only=True, update=None)
+                if extra.get("update"):
+                    case["update"] = {"route": extra["update"], "cells": update_cells(rng, g, "middle")}
             yield case
 
     # ------------------------------------------------------------------ implementation
@@ -452,6 +500,10 @@ class C11(Prop):
         par = {"second_order_tensor": perm, "bc": bc}
         if case.get("nsub"):
             par["partition_arguments"] = {"num_subproblems": int(case["nsub"])}
+        if case.get("eta") is not None:
+            par["mpfa_eta"] = float(case["eta"])
+        if case.get("inverter"):
+            par["mpfa_inverter"] = case["inverter"]
         data = pp.initialize_data(g, {}, KW, par)
         discr = pp.Mpfa(KW)
         with LocalCapture() as cap:
@@ -464,6 +516,8 @@ class C11(Prop):
                 # collinear cell and boundary-face centres): the code refuses to discretize
                 return {"error": "singular-local-system", "nc": int(g.num_cells),
                         "nf": int(g.num_faces)}
+            if case.get("update"):
+                run_update(discr, g, data, KW, case["update"])
         local = cap.local_systems() if case.get("local", True) else None
         inv = cap.inverse_pair() if case.get("inv") else None
         md = data[pp.DISCRETIZATION_MATRICES][KW]
